@@ -9,6 +9,7 @@ import (
 	"io"
 	iofs "io/fs"
 	"os"
+	"path/filepath"
 	"sort"
 	"strings"
 	"syscall"
@@ -671,7 +672,7 @@ func vpWalkTree(root string, n *vpNode, cb func(name string, mode os.FileMode) e
 		if child == nil {
 			continue // removed by the callback
 		}
-		if err := vpWalkTree(strings.TrimSuffix(root, "/")+"/"+c, child, cb); err != nil {
+		if err := vpWalkTree(filepath.Join(root, c), child, cb); err != nil {
 			return err
 		}
 	}
